@@ -35,6 +35,14 @@ def run(ctx):
                 fns = [[fn(1, "R0", "E1", True)] * 4]
                 scs.append(scenario(st, fns, [start(1, 0, asyn), env("AsyncCancel" if asyn else "CtxCancel", ct, 1)]))
         scs.append(scenario(st, [[fn(2, "R0", "E1", True)] * 4], [start(1)]))
+    # a fallback INSIDE a hedge policy: attempts fail with different errors while each other's (slow) OnFailure listener is still
+    # running; the fallback function of every attempt sees the failure of that attempt
+    from tscen import hg, cR, cE
+    for ds in ((2, 1), (3, 1), (1, 3), (2, 2)):
+        for coop in (True, False):
+            fns = [[fn(ds[0], "R0", "E1", coop), fn(ds[1], "R2", "E2", coop), fn(1, "R0", "E3", coop)]]
+            for st in ([hg(1, 1, c=[cR("R1")]), fb(fld=2)], [hg(2, 1, c=[cR("R1")]), fb(fld=3)], [hg(1, 1, c=[cR("R1")]), fb(fld=2, fe="EFB")], [hg(1, 1, c=[cR("R1")]), fb(fld=2, h=[cE("E1")])]):
+                scs.append(scenario(st, fns, [start(1)]))
     p_c07.run_family(ctx, "c10t", scs)       # (the C08 promptness predicate assumes listeners that take no time: acceptance by the model is the check here)
     return vlib.finish(ctx, rule="fallback-centred stacks (5 fallback configurations: result / error / handled subset / ErrExceeded+result / ErrOpen) over and under %d inner policies; "
                        "every lazily chosen script, 2 executions; non-trivial = more than one invocation or any policy event" % len(INNER1), exhaustive=True)
